@@ -425,3 +425,20 @@ func TestC13_Mutants(t *testing.T) {
 		}
 	})
 }
+
+// TestC13_LyingContainers applies the agreement oracle to hand-built containers whose declared
+// sizes and table entries lie (the C02 builder): a single substituted byte cannot turn a one-byte
+// size into the five-byte form, so sizes near 2^31/2^32 are only reachable by construction.
+func TestC13_LyingContainers(t *testing.T) {
+	ev.Rule(c13, "hand-built lists and messages (small and big form) with lying data/table sizes (off by one, 0xfc..0xffff, 2^31, values just below 2^32) and lying table entries over valid or garbage element data, alone and nested in a valid list; filtered by parser acceptance; each accepted input is held to the same agreement/locality oracle under the fixed adversarial prefixes and a drawn one; non-trivial = accepted")
+	ev.CheckScaled(t, c13, 20, 1, func(rt *rapid.T) {
+		in, desc := drawLyingContainer(rt)
+		extra := rapid.SliceOfN(rapid.Byte(), 1, 12).Draw(rt, "prefix")
+		if rapid.IntRange(0, 2).Draw(rt, "nest") == 0 {
+			in = refcodec.RawContainer(refcodec.TList, in, []byte{byte(len(in) >> 8), byte(len(in))}, uint64(len(in)), 2)
+			desc += " (nested in a valid list)"
+		}
+		a, _ := agree(rt, in, extra, desc)
+		ev.Case(c13, ev.Hash(in, "lying"), a, fmt.Sprintf("lying-accepted=%v", a))
+	})
+}
